@@ -202,8 +202,12 @@ class PathCond(Domain):
     """state = (path formula, env of boolean locals as a tuple of pairs, extra facts frozenset).
     Meant to be wrapped in flow.Disjunctive (one state per path)."""
 
-    def __init__(self, subst: dict[str, str] | None = None, gen=None, upd=None, decide=None, attr_alias: bool = False):
+    def __init__(self, subst: dict[str, str] | None = None, gen=None, upd=None, decide=None, attr_alias: bool = False,
+                 twin=None):
         self.attr_alias = attr_alias        # a local that names an attribute chain reads as that chain in atoms
+        # twin(state, test) -> the test with the locals' current values written out: taken as a second conjunct, it
+        # survives a later reassignment of a local the test mentions (`s = L - n; if s < 0: s = 0`)
+        self.twin = twin
         self.subst = subst or {}
         self.gen = gen                      # stmt -> iterable of opaque facts established
         self.upd = upd                      # (stmt, facts) -> facts  (facts that can also be retracted)
@@ -288,6 +292,10 @@ class PathCond(Domain):
                 elif isinstance(v, ast.BinOp) and isinstance(v.op, (ast.Add, ast.Sub, ast.Mult, ast.FloorDiv, ast.Div, ast.Mod,
                                                                     ast.LShift, ast.RShift, ast.BitAnd, ast.BitOr)):
                     facts = facts | {f'notnone:{tgt.id}'}       # neither is the result of arithmetic
+                elif isinstance(v, ast.Call) and isinstance(v.func, ast.Name) and v.func.id in (
+                        'int', 'float', 'str', 'len', 'bool', 'abs', 'round', 'sum', 'bytes', 'list', 'dict', 'tuple', 'set',
+                        'frozenset', 'sorted', 'repr', 'divmod', 'ord', 'chr', 'hex', 'range', 'enumerate', 'zip'):
+                    facts = facts | {f'notnone:{tgt.id}'}       # nor what these builtins return
                 elif isinstance(v, ast.Name) and f'notnone:{v.id}' in facts and v.id != tgt.id:
                     facts = facts | {f'notnone:{tgt.id}'}       # nor a copy of such a value
         elif isinstance(st, (ast.AugAssign,)) and isinstance(st.target, ast.Name):
@@ -325,6 +333,14 @@ class PathCond(Domain):
         if not truth:
             f = f_not(f)
         new = f_and(pc, f)
+        if self.twin is not None:
+            try:
+                t2 = self.twin(s, test)
+            except Exception:       # noqa: BLE001 - not representable: no twin
+                t2 = None
+            if t2 is not None and norm(t2) != norm(test) and len(norm(t2)) < 300:
+                f2 = parse(t2, {}, None)
+                new = f_and(new, f2 if truth else f_not(f2))
         if new == FALSE or not satisfiable(new):
             return None
         return (new, env, facts)
